@@ -1,10 +1,11 @@
 package props
 
 import (
-	"strings"
 	"context"
 	"errors"
 	"fmt"
+	"strings"
+	"time"
 
 	"github.com/avos-io/goat/gen/goatorepo"
 	"github.com/avos-io/goat/vh/env"
@@ -31,6 +32,7 @@ func c17(tier string) []*explore.Scenario {
 		out = append(out, c17AttachDuringDial("C17", dial, bound))
 	}
 	out = append(out, c17OpSeqs("C17", tier)...)
+	out = append(out, c17CancelWhileWriting(bound))
 	for _, what := range []string{"reattach", "send", "reattach-other"} {
 		out = append(out, c17ReentrantCallback(what, bound))
 	}
@@ -861,6 +863,54 @@ func c17ReentrantCallback(what string, bound int) *explore.Scenario {
 			if ts := vsched.Threads(); len(ts) > 0 {
 				vsched.Fail(fam+"|goroutine-leak", "after shutdown: %s", threadList())
 			}
+		},
+	}
+}
+
+// c17CancelWhileWriting: the proxy's writer for peer b is inside a Write that b
+// is not taking (stuck writer) when the proxy's context is cancelled. At once -
+// without any clock advance - Serve has returned and no goroutine of the proxy
+// is left; an envelope that was still stuck is not delivered afterwards.
+func c17CancelWhileWriting(bound int) *explore.Scenario {
+	fam := "C17/shutdown"
+	return &explore.Scenario{
+		Name: "C17/shutdown/cancel-while-a-write-is-blocked", Family: fam, Prop: "C17", Bound: bound,
+		Run: func() {
+			t, peers := c17Env(0)
+			vsched.Settle()
+			vsched.Explore(true)
+			vsched.GoNamed("sender-a", func() { peers["a"].A.Write(context.Background(), c17Msg(1, "a", "b")) })
+			vsched.Quiesce() // nobody reads b: the proxy's writer for b is blocked in Write
+			t.Cancel()
+			vsched.Quiesce()
+			if !t.ProxyDone {
+				vsched.Fail(fam+"|serve-hang", "Serve did not return after the context was cancelled; threads: %s", threadList())
+			}
+			var left []string
+			for _, th := range vsched.Threads() {
+				if !strings.HasPrefix(th.Name, "sender") {
+					left = append(left, fmt.Sprintf("%s(%s %s@%s)", th.ID, th.Name, th.Op, th.Site))
+				}
+			}
+			if len(left) > 0 {
+				vsched.Fail(fam+"|goroutine-leak", "the proxy's context was cancelled while its writer for b was blocked in Write: goroutines of the proxy remain (without any time passing): %v", left)
+			}
+			// b starts reading only now: nothing may arrive
+			var late *env.Rpc
+			vsched.GoNamed("late-reader-b", func() {
+				ctx, c := context.WithTimeout(context.Background(), time.Minute)
+				defer c()
+				late, _ = peers["b"].A.Read(ctx)
+			})
+			vsched.QuiesceTime()
+			if late != nil {
+				vsched.Fail(fam+"|forwarded-after-shutdown", "envelope %d was delivered to b after the proxy had been cancelled", late.GetId())
+			}
+			for _, p := range peers {
+				p.A.Break()
+				p.B.Break()
+			}
+			vsched.Quiesce()
 		},
 	}
 }
